@@ -210,9 +210,20 @@ func scenario(name string, capa, fill int, rot uint32, want string, progs ...pro
 
 func main() {
 	var specs []sched.Spec
+	// large rotations need the counter teleport (private field names); without it they are left out
+	probe := ringz.NewSync[int](2)
+	teleOK := common.TeleportSyncRing(&probe, 1<<32-1)
+	teleNote := "large rotations are installed by writing the private counters (validated against honest stepping by check C10)"
+	if !teleOK {
+		teleNote = "NOT COVERED IN THIS RUN: rotations near 2^32 — the private counter fields of SyncRing were not found, so only rotations 0, 1, cap-1 were explored"
+	}
 	for _, capa := range []int{2, 4} {
 		var rots []uint32
-		for _, rt := range []uint32{0, 1, uint32(capa - 1), 1<<32 - 1, uint32(1<<32 - capa)} {
+		cands := []uint32{0, 1, uint32(capa - 1)}
+		if teleOK {
+			cands = append(cands, 1<<32-1, uint32(1<<32-capa))
+		}
+		for _, rt := range cands {
 			dup := false
 			for _, o := range rots {
 				dup = dup || o == rt
@@ -281,7 +292,7 @@ func main() {
 		[]string{
 			"small scope: <= 3 goroutines x <= 2 operations, capacities 2 and 4, every fill level, rotations 0, 1, cap-1 and two that put the 32-bit counter wrap inside the concurrent window; positive PushWait/PopWait durations run on abstract time: the 10 ms ticker is a daemon virtual thread that ticks whenever the scheduler lets it (no wall clock)",
 			"interleaving at atomic operations is exact for Go's sequentially consistent atomics provided plain accesses are race-free, which the vector-clock detector checks on every explored schedule (probes on every plain field / element access of ringz/sync.go)",
-			"large rotations are installed by writing the private counters (validated against honest stepping by check C10)",
+			teleNote,
 			"state matching on 128-bit happens-before signatures (collisions assumed away)",
 		},
 		"states = distinct happens-before signatures; every execution runs the real instrumented ringz/sync.go to completion; its history (tight intervals, Len/IsEmpty/IsFull + drain epilogue appended) is checked for linearizability to a FIFO of capacity Cap() after removing overlapped failed Push/Pop and overlapped observers; 0 <= Len() <= Cap() probed at every new state with all threads frozen; pushers-only / poppers-only scenarios must have a success; non-trivial = distinct (operations, results, precedence) classes")
